@@ -18,13 +18,9 @@ from sim.env import SimEnv, UNIT
 
 ID = "C09"
 LEVEL = "exploration"
-QUICK_N = 24000
+QUICK_N = 40000
 THOROUGH_N = 900000
-# The runner keeps at most 6 violating scenarios per chunk whatever their keys: small chunks in
-# quick so that seeds hitting already-known defects cannot crowd out a new kind of violation;
-# larger ones in thorough to bound what the parent process has to hold.
-CHUNK = 400 if ("thorough" in __import__("sys").argv
-                or __import__("os").environ.get("VERIF_TIER") == "thorough") else 20
+CHUNK = 400
 RULE = ("gen(seed): 1..8 fetches (method, body, header sets built with HTTPHeaders.add, URL "
         "credentials, auth_username, timeouts on a per-run time scale, max_redirects) submitted at "
         "generated instants to one client with max_clients 1..3; per fetch a chain of hops "
